@@ -403,5 +403,16 @@ def r17_7(ctx):
              "the dialog closes and the option keeps its old value", cv.loc()))
 
 
+def r17_8(ctx):
+    """R17.8 reset followed by load does not raise: `_user_value` is None again after unset_value() / a reset to the
+    default, while `_was_set` survives; wherever the library uses a user value as something None cannot be (a key of the
+    bool<->str tables, an argument of int()/float()/min()/max()) a presence test dominates the use, in the function or at
+    every call site of a helper (menuconfig: change, reset, Load [O] reaches Kconfig._assigned_twice through a merging
+    load)."""
+    from .common import optional_field_guarded
+    optional_field_guarded(ctx, ["esp_kconfiglib.core", "esp_kconfiglib.report", "esp_menuconfig.model", "esp_menuconfig.formatting",
+                                 "esp_menuconfig.app", "kconfserver.core"])
+
+
 def rules():
-    return [("R17.7", r17_7, 5), ("R17.1", r17_1, 6), ("R17.5", r17_5, 4), ("R17.2", r17_2, 13), ("R17.3", r17_3, 4), ("R17.4", r17_4, 6), ("R17.6", r17_6, 3)]
+    return [("R17.8", r17_8, 6), ("R17.7", r17_7, 5), ("R17.1", r17_1, 6), ("R17.5", r17_5, 4), ("R17.2", r17_2, 13), ("R17.3", r17_3, 4), ("R17.4", r17_4, 6), ("R17.6", r17_6, 3)]
